@@ -225,7 +225,7 @@ class Contract:
 
     def __init__(self, fn, real, requires=(), ensures=(), assigns=None, build=None, unwind=1, backends=('sat',),
                  replace=(), kind='F', bounded=None, timeout=300, sig=None, tier='quick', uses=(), flags=(),
-                 poison_flags=False, note='', uf_float=(), rel=None, assumed_ensures=None):
+                 poison_flags=False, note='', uf_float=(), rel=None, assumed_ensures=None, forbid_calls=None):
         self.fn, self.real = fn, real
         self.requires, self.ensures = list(requires), list(ensures)
         self.assigns = assigns
@@ -237,6 +237,7 @@ class Contract:
         self.flags = list(flags)
         self.poison_flags = poison_flags
         self.uf_float = tuple(uf_float)
+        self.forbid_calls = forbid_calls   # regex: structural obligation "no reachable call to a matching callee" (engine.call_chain_to)
         # what callers may assume when this contract replaces a call: by default the ensures themselves; optionally the same facts
         # stated with an ABSTRACT (uninterpreted) predicate, so that caller proofs are parametric in the predicate (see C07)
         self.assumed_ensures = list(assumed_ensures) if assumed_ensures else None
